@@ -231,6 +231,10 @@ int main(int argc, char *argv[])
                 return EXIT_SUCCESS;
         }
 
+        if(!param->outfile){
+                /* the alignment goes to standard output: keep the banner out of it */
+                param->quiet = 1;
+        }
         if(!param->dump_internal){
                 if(!param->quiet){
                 print_kalign_header();
